@@ -22,7 +22,8 @@ use crate::report::{Acc, Check, Tier};
 use crate::util;
 use crate::world::{self, Verdict};
 
-pub const DEVIATIONS: [&str; 16] = [
+pub const DEVIATIONS: [&str; 17] = [
+    "inner-links-in-directory-of-name-before-last-dot",
     "inner-signed-by-G-filed-under-F",
     "inner-signed-by-unauthorized-G-under-G",
     "inner-expired",
@@ -43,6 +44,8 @@ pub const DEVIATIONS: [&str; 16] = [
 
 #[derive(Clone, Debug, PartialEq, Eq, Hash, PartialOrd, Ord)]
 pub struct Tree {
+    /// name of the delegated step
+    pub step: &'static str,
     /// "s", "s+t" (t MATCHes s), "t0+s"
     pub shape: &'static str,
     pub n_inner: usize,
@@ -117,13 +120,17 @@ fn build(dir: &Path, tree: &Tree, devs: &BTreeSet<&str>) -> in_toto::models::Met
     } else {
         world::block_text(&inner_block)
     };
-    world::write(dir, &world::link_file("s", filed_under), &inner_text);
+    let sn = tree.step;
+    world::write(dir, &world::link_file(sn, filed_under), &inner_text);
     let sub_name = if has(devs, "subdir-named-after-other-key") {
-        format!("s.{}", k.h.prefix())
+        format!("{sn}.{}", k.h.prefix())
     } else if has(devs, "subdir-named-after-step-only") {
-        "s".to_string()
+        sn.to_string()
+    } else if has(devs, "inner-links-in-directory-of-name-before-last-dot") {
+        // e.g. step `rel.signed`: links placed in `rel.<prefix>/`
+        format!("{}.{}", sn.rsplit_once('.').map(|x| x.0).unwrap_or(sn), filed_under.prefix())
     } else {
-        format!("s.{}", filed_under.prefix())
+        format!("{sn}.{}", filed_under.prefix())
     };
     let sub = if has(devs, "inner-links-in-parent-dir") { dir.to_path_buf() } else { dir.join(&sub_name) };
     std::fs::create_dir_all(&sub).unwrap();
@@ -166,12 +173,12 @@ fn build(dir: &Path, tree: &Tree, devs: &BTreeSet<&str>) -> in_toto::models::Met
         world::write(&sub, &world::link_file(&name, link_signer), &text);
     }
     // ---- outer layout
-    let s = world::step("s", 1, &[k.f]);
+    let s = world::step(tree.step, 1, &[k.f]);
     let mut steps = vec![];
     match tree.shape {
         "s+t" => {
             let t = world::step("t", 1, &[k.t])
-                .add_expected_material(ArtifactRule::Match { pattern: "*".into(), in_src: None, with: Artifact::Products, in_dst: None, from: "s".into() })
+                .add_expected_material(ArtifactRule::Match { pattern: "*".into(), in_src: None, with: Artifact::Products, in_dst: None, from: tree.step.into() })
                 .add_expected_material(ArtifactRule::Disallow("*".into()));
             steps.push(s);
             steps.push(t);
@@ -211,11 +218,12 @@ fn expected_summary(tree: &Tree) -> Value {
 }
 
 fn state_json(tree: &Tree, devs: &BTreeSet<&str>) -> Value {
-    json!({"shape": tree.shape, "inner_steps": tree.n_inner, "levels": tree.levels, "deviations": devs})
+    json!({"step": tree.step, "shape": tree.shape, "inner_steps": tree.n_inner, "levels": tree.levels, "deviations": devs})
 }
 
 fn applicable(tree: &Tree, d: &str) -> bool {
     match d {
+        "inner-links-in-directory-of-name-before-last-dot" => tree.step.contains('.'),
         "level3-link-missing" | "level3-layout-signed-by-other-key" => tree.levels == 3,
         // with three levels in1's evidence is a sub-layout, link-level deviations on in1 do not apply
         "inner-link-by-unauthorized-key" | "inner-link-by-key-outside-inner-table" | "inner-threshold-2-one-link" => tree.levels == 2,
@@ -230,7 +238,7 @@ fn conflict(a: &str, b: &str) -> bool {
     let group = |d: &str| -> u8 {
         match d {
             "inner-signed-by-G-filed-under-F" | "inner-signed-by-unauthorized-G-under-G" => 1,
-            "subdir-named-after-other-key" | "subdir-named-after-step-only" | "inner-links-in-parent-dir" => 2,
+            "subdir-named-after-other-key" | "subdir-named-after-step-only" | "inner-links-in-parent-dir" | "inner-links-in-directory-of-name-before-last-dot" => 2,
             "inner-link-by-unauthorized-key" | "inner-link-by-key-outside-inner-table" | "inner-link-missing:first" | "inner-threshold-2-one-link" => 3,
             _ => 0,
         }
@@ -313,13 +321,15 @@ pub fn run(tier: Tier) -> i32 {
     let mut c = Check::new("C15", "model_checking", tier);
     let max_dev = if tier.thorough() { 2 } else { 1 };
     let mut trees = vec![];
-    for shape in ["s", "s+t", "t0+s"] {
-        for n_inner in 1..=3 {
-            for levels in [2, 3] {
-                if !tier.thorough() && levels == 3 && n_inner == 3 {
-                    continue;
+    for step in ["s", "rel.signed", "s p.é"] {
+        for shape in ["s", "s+t", "t0+s"] {
+            for n_inner in 1..=3 {
+                for levels in [2, 3] {
+                    if !tier.thorough() && (levels == 3 && n_inner == 3 || step != "s" && n_inner == 3) {
+                        continue;
+                    }
+                    trees.push(Tree { step, shape, n_inner, levels });
                 }
-                trees.push(Tree { shape, n_inner, levels });
             }
         }
     }
@@ -352,6 +362,21 @@ pub fn run(tier: Tier) -> i32 {
             let lay = build(dir, tree, devs);
             let v = world::verify(&lay, world::owner_map(&[k().owner]), dir);
             judge(acc, tree, devs, &v);
+            // the same under a requested summary name
+            let vn = world::verify_named(&lay, world::owner_map(&[k().owner]), dir, Some("requested"));
+            match (&v, &vn) {
+                (Verdict::Ok(a), Verdict::Ok(b)) => {
+                    let mut want = a.clone();
+                    want["name"] = json!("requested");
+                    if *b != want {
+                        acc.violation("summary-differs:requested-name", "the summary returned under a requested name is not the same summary under that name", || state_json(tree, devs));
+                    }
+                }
+                (Verdict::Err(_), Verdict::Ok(_)) if !devs.is_empty() => {
+                    acc.violation(&format!("accepted-with-requested-name:{}", devs.iter().cloned().collect::<Vec<_>>().join("+")), "verification under a requested summary name accepted a tree that is rejected otherwise", || state_json(tree, devs));
+                }
+                _ => {}
+            }
             acc.states += 1;
             if !devs.is_empty() {
                 acc.nontrivial += 1;
@@ -378,7 +403,8 @@ pub fn replay(case: &Value) -> Value {
         return json!({"violation": acc.violations.keys().next()});
     }
     let shape = ["s", "s+t", "t0+s"].into_iter().find(|s| Some(*s) == case["shape"].as_str()).unwrap_or("s");
-    let tree = Tree { shape, n_inner: case["inner_steps"].as_u64().unwrap_or(1) as usize, levels: case["levels"].as_u64().unwrap_or(2) as usize };
+    let step = ["s", "rel.signed", "s p.é"].into_iter().find(|s| Some(*s) == case["step"].as_str()).unwrap_or("s");
+    let tree = Tree { step, shape, n_inner: case["inner_steps"].as_u64().unwrap_or(1) as usize, levels: case["levels"].as_u64().unwrap_or(2) as usize };
     let devs: BTreeSet<&'static str> = case["deviations"].as_array().map(|a| a.iter().filter_map(|x| DEVIATIONS.iter().copied().find(|d| Some(*d) == x.as_str())).collect()).unwrap_or_default();
     let dir = util::fresh_dir("c15r");
     let lay = build(&dir, &tree, &devs);
